@@ -817,7 +817,7 @@ class Match(Base):
     name = "match"
 
     def cases(self, ctx, round=0):
-        cs = self.problems(ctx, round, 12 if round == 0 else 6, 60 if round == 0 else 30)
+        cs = self.problems(ctx, round, 12 if round == 0 else 6, 50 if round == 0 else 30)
         if round == 0:
             # corners: empty sets, single points, scalars
             cs.append(dict(ra1=[], dec1=[], ra2=[1.0, 2.0], dec2=[3.0, 4.0], radius=1.0, scale=1.0, depth=7,
@@ -1404,7 +1404,7 @@ def certify(ctx, replay=None):
     else:
         problems = [c for c in corpus_all("sepcert")]
         for fam in FAMILIES:
-            for _ in range(ctx.n(1, 4)):
+            for _ in range(ctx.n(1, 3)):
                 p = gen_problem(r, fam)
                 p.update(gen_config(r, p, fam))
                 problems.append(p)
@@ -1508,34 +1508,45 @@ class Watchdog:
         except OSError:
             pass
 
+    def _report(self, ctx, hb, what):
+        # the run is gone or about to be killed: print the violations it has recorded so far (their
+        # replay files are on disk), which its own final report would have printed, then this case
+        rd = os.path.join(core.VERIF, "replays")
+        for f in sorted(os.listdir(rd)):
+            fp = os.path.join(rd, f)
+            if f.startswith(ctx.pid + "-") and os.path.getmtime(fp) >= ctx.t0:
+                try:
+                    r_ = json.load(open(fp))
+                    print("VIOLATION property=%s replay=%s%s\n  -> %s" % (
+                        ctx.pid, fp, "" if r_.get("failing_input_found") else " no-failing-input-found", str(r_.get("what"))[:300]))
+                except (OSError, ValueError):
+                    pass
+        ctx.violations = []
+        ctx.violation(what, {"kind": "failing-input", "entry": hb["entry"], "case": hb["case"], "impl_output": "no return",
+                             "class": None}, found_input=True)
+        print("VIOLATION property=%s replay=%s\n  -> %s" % (ctx.pid, ctx.violations[0]["replay"], what))
+        sys.stdout.flush()
+
     def _watch(self, ctx, parent):
         while True:
             time.sleep(2)
             try:
-                os.kill(parent, 0)
                 hb = json.load(open(self.path))
             except (OSError, ValueError):
+                return                      # the run finished and removed its work directory
+            try:
+                os.kill(parent, 0)
+                alive = os.getppid() == parent
+            except OSError:
+                alive = False
+            if not alive:
+                # the run died (segmentation fault, out-of-memory kill) -- during a call of the real code?
+                if not hb.get("idle"):
+                    self._report(ctx, hb, "%s: the process died while the implementation was executing this case" % hb["entry"])
                 return
             if hb.get("idle") or time.time() - hb["t"] <= self.limit:
                 continue
-            what = "%s: the implementation did not return within %d s on this case" % (hb["entry"], self.limit)
-            # the run is about to be killed: print the violations it has recorded so far (their replay
-            # files are on disk), which its own final report would have printed
-            rd = os.path.join(core.VERIF, "replays")
-            for f in sorted(os.listdir(rd)):
-                fp = os.path.join(rd, f)
-                if f.startswith(ctx.pid + "-") and os.path.getmtime(fp) >= ctx.t0:
-                    try:
-                        r_ = json.load(open(fp))
-                        print("VIOLATION property=%s replay=%s%s\n  -> %s" % (
-                            ctx.pid, fp, "" if r_.get("failing_input_found") else " no-failing-input-found", str(r_.get("what"))[:300]))
-                    except (OSError, ValueError):
-                        pass
-            ctx.violations = []
-            ctx.violation(what, {"kind": "failing-input", "entry": hb["entry"], "case": hb["case"], "impl_output": "no return",
-                                 "class": None}, found_input=True)
-            print("VIOLATION property=%s replay=%s\n  -> %s" % (ctx.pid, ctx.violations[0]["replay"], what))
-            sys.stdout.flush()
+            self._report(ctx, hb, "%s: the implementation did not return within %d s on this case" % (hb["entry"], self.limit))
             try:
                 os.kill(parent, 9)
             except OSError:
